@@ -19,3 +19,4 @@ CFG = dict(
      assumptions=["testing/synctest and runtime.Stack(all) snapshots are correct", "subscriber channels are only read by the harness"],
      timeout_quick=600, timeout_thorough=3000)
 CFG["rule"] += ' Added after independently written breaking changes: Also Subscribe calls with several channels (one shared context).'
+CFG["rule"] += ' TestBroadcasterSharedChannel: one channel with several subscriptions (a value arrives once per live subscription; each leaves alone). TestBroadcasterFanIn: 2-16 broadcasters into one channel of capacity 0-2 that nobody reads; after the context ends every Close returns (bubble quiescence).'
